@@ -357,6 +357,9 @@ class XEval:
             return ("ret", self.ev(s.value, env, f) if s.value is not None else ("none",))
         if isinstance(s, ast.Pass):
             return None
+        if isinstance(s, ast.FunctionDef) and not s.decorator_list and not s.args.vararg and not s.args.kwarg:
+            env[s.name] = ("closure", s, env)  # a nested helper: its body reads the enclosing locals
+            return None
         if isinstance(s, ast.Raise):
             raise Reject
         if isinstance(s, ast.If):
@@ -542,6 +545,14 @@ class XEval:
                 flds = I.record_fields(dcls.obj)
                 if flds is not None and len(args) <= len(flds) and all(k in flds for k in kwargs):
                     return self.make_record(dcls.obj, flds, args, kwargs, f)
+        if isinstance(fn, ast.Name) and fn.id in env and env[fn.id][0] == "closure":
+            _k, fd, outer = env[fn.id]
+            env2 = dict(outer)
+            for p_, a_ in zip([a.arg for a in fd.args.args], args):
+                env2[p_] = a_
+            env2.update(kwargs)
+            r = self.block(fd.body, env2, f)
+            return r[1] if r is not None else ("none",)
         if isinstance(fn, ast.Name) and fn.id in env and env[fn.id][0] == "cls":
             c_ = env[fn.id][1]
             flds = I.record_fields(c_)
